@@ -45,6 +45,9 @@ def run_seed_of(base, prop, idx):
 def run_chunk(prop, tier, base, indices, keep_digests):
     from .world import signature, plan_digest
     world = load_world(prop)
+    import gc
+    gc.collect()
+    gc.freeze()     # everything imported so far is permanent: makes the per-run gc.collect() cheap
     out = {"n": 0, "harness": [], "disturbed": Counter(), "viol": {}, "violcount": Counter(), "probes": Counter(),
            "faults": Counter(), "digests": {}, "sched_digests": set(), "plan_digests": set(), "nontrivial": set(),
            "steps": 0, "sim_s": 0.0, "switches": 0, "preempts": 0, "samples": [], "violating_runs": 0}
